@@ -8,7 +8,7 @@ From BS Require Import Model.Base Model.Regex Model.Num Model.ExprParser Model.S
   Proofs.ExprFuel Proofs.C10wsFull Proofs.RegexShiftG Proofs.C10wsIndent2 Proofs.C10wsReturn
   Proofs.C10tokLex Proofs.C10tokSpaced Proofs.RegexTrail Proofs.C10tokTrail Proofs.RegexTrail2
   Proofs.RegexTrail3 Proofs.C10stmtTrail Proofs.C10parseNoeq Proofs.C10classifyTrail Proofs.C10stmtGaps Proofs.C10stmtGaps2 Proofs.C10stmtGaps3
-  Proofs.C10stmtGaps4 Proofs.C10stmtGaps5 Proofs.C10stmtGaps6 Proofs.C02str Proofs.C10stmtGaps7 Proofs.C10stmtGaps8 Proofs.C10stmtGaps9 Proofs.C10labelKw.
+  Proofs.C10stmtGaps4 Proofs.C10stmtGaps5 Proofs.C10stmtGaps6 Proofs.C02str Proofs.C10stmtGaps7 Proofs.C10stmtGaps8 Proofs.C10stmtGaps9 Proofs.C10labelKw Proofs.C10stmtGaps10.
 
 (* ---- LF versus CRLF: both texts have the same lines ---- *)
 Theorem C10_crlf : forall lines, lines <> [] -> Forall no_lf lines -> Forall (fun l => ends_cr l = false) lines ->
@@ -641,6 +641,78 @@ Example C10_ex_ws_fn_names :
   Lower.classify 2 (U "function f1(a):") = ROk (KFnBegin (U "f1") (ROk (Some [U "a"])) false false) /\
   Lower.classify 2 (U "function f1(a b):") <> Lower.classify 2 (U "function f1(ab):").
 Proof. exact fn_names_examples. Qed.
+
+(* ---- round 8 (Proofs/C10stmtGaps10.v): ONE relation for every statement kind with inner gaps.  stmt_spaced4 = stmt_spaced3
+   (assignment, if, elif, while, return <expr>, jump, jumpif, label, for, for with index) plus
+     function begin : two layouts fb_layout (each with its own runs and its own separators `u , v` in the argument list),
+                      the same name, the same argument NAMES (fn_names), async / `...` in both or in neither;
+     include 'body' : the same body (every quote escaped);   include <url> : the same url (no `>`);
+     a label named if / elif / while : both runs in front of the colon with only LF behind their first character.
+   Related lines classify successfully and alike (same kind, names, flags, expression trees).  PARTIAL as before: the
+   expression texts are related by `spaced` and the first one parses; rejected lines are not related. ---- *)
+Theorem C10_ws_statement_gaps4_partial : forall n k l1 l2, stmt_spaced4 k l1 l2 ->
+  Lower.classify n l1 = ROk k /\ Lower.classify n l2 = ROk k.
+Proof. exact stmt_spaced4_classify. Qed.
+Print Assumptions C10_ws_statement_gaps4_partial.
+
+Theorem C10_ws_statement_gaps4_same : forall n k l1 l2, stmt_spaced4 k l1 l2 -> Lower.classify n l1 = Lower.classify n l2.
+Proof. exact stmt_spaced4_same. Qed.
+Print Assumptions C10_ws_statement_gaps4_same.
+
+Theorem C10_ws_statement_gaps4_symmetric : forall k l1 l2, stmt_spaced4 k l1 l2 -> stmt_spaced4 k l2 l1.
+Proof. exact stmt_spaced4_sym. Qed.
+Print Assumptions C10_ws_statement_gaps4_symmetric.
+
+(* the function-begin constructor spelled out (what ss4_fn_begin relates) *)
+Theorem C10_ws_fn_begin_layouts : forall n name L1 L2, ident name = true -> fb_ok L1 -> fb_ok L2 ->
+  fn_names (fb_args L1) = fn_names (fb_args L2) -> is_some (fb_asy L1) = is_some (fb_asy L2) ->
+  is_some (fb_dots L1) = is_some (fb_dots L2) ->
+  Lower.classify n (fb_line name L1) = ROk (KFnBegin name (ROk (fn_names (fb_args L1))) (is_some (fb_asy L1)) (is_some (fb_dots L1))) /\
+  Lower.classify n (fb_line name L2) = Lower.classify n (fb_line name L1).
+Proof.
+  intros n name L1 L2 ID O1 O2 EN EA ED.
+  destruct (stmt_spaced4_classify n _ _ _ (ss4_fn_begin name L1 L2 ID O1 O2 EN EA ED)) as [A B]. split; [exact A | rewrite A, B; reflexivity].
+Qed.
+Print Assumptions C10_ws_fn_begin_layouts.
+
+(* non-vacuity: a tight and a loose layout of each new shape are related ... *)
+Example C10_ex_ws_statement_gaps4 :
+  fb_ok fb_tight /\ fb_ok fb_loose /\
+  fb_line (U "f1") fb_tight = U "async function f1(a,b1,c...):" /\
+  fb_line (U "f1") fb_loose = U "  async \000009function  f1 ( a ,b1 \000009 , c  ... ) :  " /\
+  stmt_spaced4 (KFnBegin (U "f1") (ROk (Some [U "a"; U "b1"; U "c"])) true true)
+    (U "async function f1(a,b1,c...):") (U "  async \000009function  f1 ( a ,b1 \000009 , c  ... ) :  ") /\
+  stmt_spaced4 (KInclude (U "it's") false) (U "include 'it\00005c's'") (U "  include \000009 'it\00005c's'  ") /\
+  stmt_spaced4 (KInclude (U "a b.bare") true) (U "include <a b.bare>") (U " include \000009 <a b.bare>  ") /\
+  stmt_spaced4 (KLabel (U "while")) (U "while:") (U " while\000009: ") /\
+  stmt_spaced4 (KLabel (U "top")) (U "top:") (U " top\000009 :  ").
+Proof.
+  destruct fb_examples_ok as (A & B & C & D). destruct stmt_spaced4_examples as (E & F & G & H & I).
+  exact (conj A (conj B (conj C (conj D (conj E (conj F (conj G (conj H I)))))))).
+Qed.
+
+(* ... and classify COMPUTES the same kind on both; white space inside a piece is outside the relation *)
+Example C10_ex_ws_statement_gaps4_computed :
+  Lower.classify 2 (U "async function f1(a,b1,c...):") = ROk (KFnBegin (U "f1") (ROk (Some [U "a"; U "b1"; U "c"])) true true) /\
+  Lower.classify 2 (U "  async \000009function  f1 ( a ,b1 \000009 , c  ... ) :  ") = Lower.classify 2 (U "async function f1(a,b1,c...):") /\
+  Lower.classify 2 (U "  include \000009 'it\00005c's'  ") = Lower.classify 2 (U "include 'it\00005c's'") /\
+  Lower.classify 2 (U "include 'it\00005c's'") = ROk (KInclude (U "it's") false) /\
+  Lower.classify 2 (U " include \000009 <a b.bare>  ") = Lower.classify 2 (U "include <a b.bare>") /\
+  Lower.classify 2 (U " while\000009: ") = Lower.classify 2 (U "while:") /\
+  Lower.classify 2 (U "while:") = ROk (KLabel (U "while")) /\
+  (* the run between `async` and `function` is a `\s*`: it may be empty *)
+  Lower.classify 2 (U "asyncfunction f1():") = Lower.classify 2 (U "async function f1():") /\
+  Lower.classify 2 (U "function f1(a,b1):") <> Lower.classify 2 (U "function f1(a,b 1):") /\
+  Lower.classify 2 (U "function f1(a,b1):") <> Lower.classify 2 (U "function f1(a,b1. ..):") /\
+  Lower.classify 2 (U "function f1():") <> Lower.classify 2 (U "functionf1():") /\
+  Lower.classify 2 (U "include 'a'") <> Lower.classify 2 (U "include' a'") /\
+  Lower.classify 2 (U "while:") <> Lower.classify 2 (U "while  :").
+Proof.
+  split; [vm_compute; reflexivity|]. split; [vm_compute; reflexivity|]. split; [vm_compute; reflexivity|].
+  split; [vm_compute; reflexivity|]. split; [vm_compute; reflexivity|]. split; [vm_compute; reflexivity|].
+  split; [vm_compute; reflexivity|]. split; [vm_compute; reflexivity|].
+  repeat split; vm_compute; discriminate.
+Qed.
 
 Theorem C10_expression_never_starts_eq : forall t e, parse_expression (U "=" ++ t) <> EOk e.
 Proof. exact parse_hd_noeq. Qed.
